@@ -531,6 +531,16 @@ func runC07(c *core.Ctx) {
 					}
 				}
 			}
+			// a fragment definition without its type condition (two tokens gone)
+			if layout == world.LOneLine {
+				for _, fr := range dd.Frags {
+					cond := " on " + fr.Cond
+					if i := strings.Index(text, "fragment "+fr.Name+cond); i >= 0 {
+						cut := text[:i+len("fragment "+fr.Name)] + text[i+len("fragment "+fr.Name)+len(cond):]
+						run(&c07Req{Kind: "fragment-without-condition", Text: cut, Layout: layout, MustReject: true})
+					}
+				}
+			}
 			// single defects at every site
 			nsites := 0
 			dd.TypedWalk(s, func(set *[]*world.Sel, container string) { nsites++ })
